@@ -1889,7 +1889,7 @@ func (w *clientWorld) clientProbes() {
 func init() {
 	real := []string{"sse.Client, sse.Connection (Connect, doConnect, resetRequest, dispatch, callbacks), instrumented copy", "back-off controller on the fake clock (time.NewTimer, time.Now, jitter PRNG seeded from it)", "event.go read(), internal/parser", "net/http.Client (Do)", "context"}
 	stub := []string{"http.RoundTripper scripted per attempt (dial failure, rejected response, stream served in chooser-sized chunks, clean end / read error / hang)", "scheduler: synctest bubble + generated yield points", "request bodies of every kind"}
-	common := "each evaluation draws a Backoff configuration over its documented domain, a request body kind, a validator, a cancellation plan (after k attempts / at a byte offset / at a simulated instant) and then, attempt by attempt, an outcome and a stream (structured events with ids/types/retry fields and adversarial tails, or free-form bytes), served in chooser-sized chunks with optional latency on the fake clock. "
+	common := "each evaluation draws a Backoff configuration over its documented domain, a request body kind, a validator, a cancellation plan (after k attempts / at a byte offset / at a simulated instant / from inside a callback), the kind of request context (plain, ending with DeadlineExceeded with or without a Deadline, cancelled with a cause that the transport reports as net/http does), 1-3 Connect calls on the connection with gaps between them, how the Client is used (shared with earlier connections, edited after NewConnection, without OnRetry, NoopValidator, the package-level NewConnection), an optional connection buffer (large, or 256 bytes so that events beyond it end connections) and then, attempt by attempt, an outcome (dial failure, rejected response, stream; optionally after a redirect that the real net/http.Client follows) and a stream (structured events with ids/types/retry fields and adversarial tails, or free-form bytes), served in chooser-sized chunks with optional latency on the fake clock; read, dial and validator errors may be typed or match well-known sentinels. One run in 25 has 20-40 attempts. "
 	nontriv := " Non-trivial: at least two attempts or one dispatched event; distinct = distinct (configuration, per-attempt outcomes and streams, scheduling hash)."
 	assum := []string{"Connect may be called again on the same Connection after it returned (1-3 calls); each call has the full retry budget of the policy, and whether a server retry value outlives the call it was received in is left open", "retry values between 1 ms and 10^12 ms; histories whose b_k stays below 2^62 ns", "simulated transport models net/http's contract as go-sse uses it (RoundTrip error / response / Body.Read / context cancellation surfaces from Read)"}
 	register(&World{Name: "client", Level: "exploration", Rule: common + "Oracle: Last-Event-ID header and body of every attempt as a function of the attempt history (reference interpreter gives the last dispatched ID)." + nontriv, Real: real, Stub: stub, Assumptions: assum,
